@@ -87,13 +87,17 @@ def case(chk, i):
         problems = []
         obs = {"libraries_x_optsets": 1, "functions": len(lib.fns), "globals": len(lib.globals), "calls": 0, "values_compared": 0,
                "signatures_compared": 0, "symbols_checked": 0,
-               "functions_taking_inline_noreturn_handlers": sum(1 for fn in lib.fns if any(p_ is hfuncs.NRH for p_ in fn.params))}
+               "functions_taking_inline_noreturn_handlers": sum(1 for fn in lib.fns if any(p_ is hfuncs.NRH for p_ in fn.params)),
+               "typeof_pointers_compared_with_their_function": info.get("typeof_pointers", 0)}
         if rc != 0:
             locs = re.findall(r"^error[^\n]*\n\s*--> (\S+?):\d+:\d+", se, re.M)
             if "undefined symbol" in se or "undefined reference" in se:
                 syms = sorted(set(re.findall(r"undefined (?:symbol|reference to)[: `']+([^\s'`]+)", se)))
                 out.append(Verdict(VIOLATED, cname, "bindings refer to symbols the C compiler did not emit: %s (defined: %s)" % (syms[:5], sorted(defined)[:12]),
                                    files=files, obs=obs, signature=asm_sig(lib, syms)))
+                continue
+            if "vf_same(" in se:
+                out.append(Verdict(VIOLATED, cname, "a pointer declared `__typeof__(f) *` is not bound with f's own signature: " + se[:700], files=files, obs=obs))
                 continue
             if any(l.endswith("/b_%s.rs" % oname) for l in locs):
                 out.append(Verdict(INCONCLUSIVE, cname, "bindings do not compile (C01's): " + se[:400]))
